@@ -150,7 +150,8 @@ func paramNames(fd *ast.FuncDecl) []string {
 // ---------- classification of middleware / auth helper / handlers ----------
 
 type authFacts struct {
-	ok       bool   // whole pattern recognised
+	isAuth   bool   // builds an auth.Request with an action constant and calls Authenticate on it
+	ok       bool   // whole pattern recognised, incl. "every error path denies with the constant 401 and aborts"
 	action   string // AuthActionAPI …
 	usesPath bool   // Path: <2nd parameter>
 	why      string
@@ -260,7 +261,7 @@ func classifyAuth(p *pkgInfo, fd *ast.FuncDecl, helper bool) authFacts {
 	if helper {
 		wantParams, wantStmts, ret = 2, 4, "false"
 	}
-	if len(ps) != wantParams || len(body) != wantStmts {
+	if len(ps) != wantParams || len(body) < 2 {
 		f.why = "parameter/statement count"
 		return f
 	}
@@ -347,6 +348,11 @@ func classifyAuth(p *pkgInfo, fd *ast.FuncDecl, helper bool) authFacts {
 	c, ok := as.Rhs[0].(*ast.CallExpr)
 	if !ok || !strings.HasSuffix(callName(c), ".AuthManager.Authenticate") || len(c.Args) != 1 || selChain(c.Args[0]) != reqVar {
 		f.why = "stmt 1 not `_, err := …Authenticate(req)`"
+		return f
+	}
+	f.isAuth = true
+	if len(body) != wantStmts {
+		f.why = "statement count"
 		return f
 	}
 	// if err != nil { … deny on every path … }
@@ -504,7 +510,8 @@ type walker struct {
 	routes    []route
 	accounted map[token.Pos]bool
 	problems  []string
-	pprofPkg  string // local name of the gin-contrib/pprof import
+	used      []string // every middleware name passed to Use / Group, also when no route ends up behind it
+	pprofPkg  string   // local name of the gin-contrib/pprof import
 	extRoutes func() ([]route, error)
 }
 
@@ -582,6 +589,7 @@ func (w *walker) call(c *ast.CallExpr, lhs ast.Expr) {
 			return
 		}
 		r.mws = append(r.mws, hs...)
+		w.used = append(w.used, hs...)
 		w.accounted[id.Pos()] = true
 	case sel == "Group":
 		g, ok := lhs.(*ast.Ident)
@@ -596,6 +604,7 @@ func (w *walker) call(c *ast.CallExpr, lhs ast.Expr) {
 		if !ok {
 			return
 		}
+		w.used = append(w.used, hs...)
 		w.routers[g.Name] = &router{prefix: r.prefix + pfx, mws: append(append([]string{}, r.mws...), hs...)}
 		w.accounted[id.Pos()] = true
 		w.accounted[g.Pos()] = true
@@ -845,8 +854,12 @@ func main() {
 		kinds := map[string]string{}
 		var mwAuth *authFacts
 		preflightOK := true
+		mwNames := append([]string{}, w.used...)
 		for _, r := range w.routes {
-			for _, m := range r.mws {
+			mwNames = append(mwNames, r.mws...)
+		}
+		{
+			for _, m := range mwNames {
 				if _, done := kinds[m]; done {
 					continue
 				}
@@ -858,9 +871,15 @@ func main() {
 					kinds[m] = ".preflight"
 				default:
 					af := classifyAuth(p, fd, false)
-					if af.ok && (mwAuth == nil || mwAuth.action == af.action) {
+					if af.isAuth && (mwAuth == nil || mwAuth.action == af.action) {
 						kinds[m] = ".auth"
+						if mwAuth != nil && !mwAuth.ok {
+							af.ok = false
+						}
 						mwAuth = &af
+						if !af.ok {
+							w.problems = append(w.problems, "middleware "+m+": "+af.why)
+						}
 					} else {
 						kinds[m] = ".other"
 						w.problems = append(w.problems, "middleware "+m+" not recognised: "+af.why)
@@ -888,9 +907,12 @@ func main() {
 						w.problems = append(w.problems, "auth helper "+h+" not recognised: "+af.why)
 					}
 				}
-				if af.ok && (hAuth == nil || hAuth.action == af.action) {
+				if af.isAuth && (hAuth == nil || hAuth.action == af.action) {
 					guarded[r.handler] = true
 					a := af
+					if hAuth != nil && !hAuth.ok {
+						a.ok = false
+					}
 					hAuth = &a
 				}
 			}
@@ -900,11 +922,11 @@ func main() {
 		action, usesPath, denyOK := "", false, false
 		switch {
 		case mwAuth != nil && hAuth == nil:
-			action, usesPath, denyOK = mwAuth.action, mwAuth.usesPath, true
+			action, usesPath, denyOK = mwAuth.action, mwAuth.usesPath, mwAuth.ok
 		case mwAuth == nil && hAuth != nil:
-			action, usesPath, denyOK = hAuth.action, hAuth.usesPath, true
+			action, usesPath, denyOK = hAuth.action, hAuth.usesPath, hAuth.ok
 		case mwAuth != nil && hAuth != nil && mwAuth.action == hAuth.action:
-			action, usesPath, denyOK = mwAuth.action, hAuth.usesPath, true
+			action, usesPath, denyOK = mwAuth.action, hAuth.usesPath, mwAuth.ok && hAuth.ok
 		}
 		al, ok := actionLean[action]
 		if !ok {
